@@ -8,7 +8,7 @@ avoid = sys.argv[3] if len(sys.argv) > 3 else ""
 props = {json.loads(l)["id"]: json.loads(l) for l in open("/verif/properties.jsonl")}
 p = props[pid]
 prev = []
-for f in sorted(glob.glob(f"/verif/seeded/{pid}-*/meta.json")):
+for f in sorted(glob.glob(f"/verif/seeded/{pid}-*/meta.json") + glob.glob(f"/verif/seeded/stale/{pid}-*/meta.json")):
     prev.append("- " + json.load(open(f))["summary"][:220].replace("\n", " "))
 if prev:
     avoid += " Changes already produced earlier for this property — choose a clearly different mechanism and code location:\n" + "\n".join(prev)
